@@ -634,9 +634,11 @@ package starlark
 // ---- UnpackArgs (C08): intset is a set of parameter indices (bitset below 64, map above);
 // its implementation is trusted (bit operations and Go maps), its behaviour is the ghost set has[].
 //@ func intset.init
-//@   trusted bitset/map representation
+//@   prop C08
 //@   modifies $ghost:intset.has[], is.large
-//@   ensures forall(k, 0, n, !gelem(intset.has, is, k))
+//@   abstraction starts_empty: forall(k, 0, n, !gelem(intset.has, is, k))
+// (a 64-bit word cannot record parameter 64 and up: larger sets must use the map)
+//@   ensures large_sets_use_the_map: n >= 64 ==> !isnil(is.large)
 //@ func intset.set
 //@   trusted bitset/map representation
 //@   modifies $ghost:intset.has[], is.small
